@@ -1,4 +1,8 @@
-(** Model of src/epd2in9d/mod.rs — STUB, not yet transcribed. *)
+(** Model of src/epd2in9d/mod.rs.
+    Fields: is_partial_refresh -> is_partial, old_data -> old.  The driver keeps a raw pointer
+    ([from_raw_parts]) to the buffer of the caller's previous update call; [old s = Some (call, arg,
+    len)] names that buffer and its bytes are [DArg call arg 0 len]; [None] is the empty slice
+    [&[]] installed by [new]. *)
 From Coq Require Import List NArith Bool.
 From EPD Require Import Iface Ops Drv.Luts.
 Import ListNotations.
@@ -8,11 +12,130 @@ Open Scope m_scope.
 Module Epd2in9d.
 Definition WIDTH : N := 128.
 Definition HEIGHT : N := 296.
+Definition EPD_ARRAY : N := 4736.
+Definition IS_BUSY_LOW := false.
 
-Definition init : M unit := ret tt.
+Definition wait_until_idle : M unit := wait_idle IS_BUSY_LOW.
 
-Definition exec (k : N) (o : op) : option (M rval) := None.
+(** the bytes behind [self.old_data] *)
+Definition old_data (s : dstate) : dexp :=
+  match old s with
+  | Some (c, a, len) => DArg c a 0 len
+  | None => DLit []
+  end.
+
+Definition init : M unit :=
+  reset 10000 2000 ;;
+  cmd_with_data 0x00 [0x1f; 0x0D] ;;
+  cmd_with_data 0x61 [0x80; 0x01; 0x28] ;;
+  cmd 0x04 ;;
+  wait_until_idle ;;
+  cmd_with_data 0x50 [0x97].
+
+Definition set_lut_helper (lut_vcom lut_ww lut_bw lut_wb lut_bb : list N) : M unit :=
+  cmd_with_data 0x20 lut_vcom ;;
+  cmd_with_data 0x21 lut_ww ;;
+  cmd_with_data 0x22 lut_bw ;;
+  cmd_with_data 0x23 lut_wb ;;
+  cmd_with_data 0x24 lut_bb.
+
+Definition set_lut (r : option N) : M unit :=
+  (match r with Some v => modify (set_refresh v) | None => ret tt end) ;;
+  set_lut_helper epd2in9d_LUT_VCOM1 epd2in9d_LUT_WW1 epd2in9d_LUT_BW1 epd2in9d_LUT_WB1
+                 epd2in9d_LUT_BB1.
+
+Definition set_part_reg : M unit :=
+  reset 10000 2000 ;;
+  cmd_with_data 0x01 [0x03; 0x00; 0x2b; 0x2b; 0x03] ;;
+  cmd_with_data 0x06 [0x17; 0x17; 0x17] ;;
+  cmd_with_data 0x00 [0xbf; 0x0D] ;;
+  cmd_with_data 0x30 [0x3C] ;;
+  cmd_with_data 0x61 [0x80; 0x01; 0x28] ;;
+  cmd_with_data 0x82 [0x12] ;;
+  set_lut None ;;
+  cmd 0x04 ;;
+  wait_until_idle.
+
+Definition sleep : M unit :=
+  modify (set_partial false) ;;
+  cmd_with_data 0x50 [0xf7] ;;
+  cmd 0x02 ;;
+  wait_until_idle ;;
+  delay_us 100000 ;;
+  cmd_with_data 0x07 [0xA5].
+
+Definition wake_up : M unit := init.
+
+Definition update_frame (k len : N) : M unit :=
+  s <- get ;;
+  when_ (is_partial s) (modify (set_partial false)) ;;
+  wait_until_idle ;;
+  cmd 0x10 ;;
+  data_x_times 0xFF EPD_ARRAY ;;
+  cmd_with_data_e 0x13 (DArg k 0 0 len) ;;
+  modify (set_old (Some (k, 0, len))).
+
+Definition update_partial_frame (k len x y w h : N) : M unit :=
+  s <- get ;;
+  when_ (negb (is_partial s))
+    (set_part_reg ;;
+     modify (set_partial true)) ;;
+  cmd 0x91 ;;
+  cmd 0x90 ;;
+  data [u8 (x - x mod 8)] ;;
+  a <- add32 (x - x mod 8) w ;;
+  a <- sub32 a 1 ;;
+  a <- sub32 a 1 ;;
+  data [u8 a] ;;
+  data [u8 (y / 256)] ;;
+  data [u8 (y mod 256)] ;;
+  b <- add32 y h ;;
+  b <- sub32 b 1 ;;
+  data [u8 (b / 256)] ;;
+  c <- add32 y h ;;
+  c <- sub32 c 1 ;;
+  c <- sub32 (c mod 256) 1 ;;
+  data [u8 c] ;;
+  data [0x28] ;;
+  s <- get ;;
+  cmd_with_data_e 0x10 (old_data s) ;;
+  cmd_with_data_e 0x13 (DArg k 0 0 len) ;;
+  modify (set_old (Some (k, 0, len))).
+
+Definition display_frame : M unit :=
+  cmd 0x12 ;;
+  delay_us 1000 ;;
+  wait_until_idle.
+
+Definition update_and_display_frame (k len : N) : M unit :=
+  update_frame k len ;;
+  display_frame.
+
+Definition clear_frame : M unit :=
+  cmd 0x10 ;;
+  data_x_times 0x00 EPD_ARRAY ;;
+  cmd 0x13 ;;
+  data_x_times 0xFF EPD_ARRAY ;;
+  display_frame.
+
+Definition exec (k : N) (o : op) : option (M rval) :=
+  match o with
+  | OSleep => unit_ sleep
+  | OWakeUp => unit_ wake_up
+  | OSetBg c => unit_ (modify (set_bg c))
+  | OGetBg => Some (s <- get ;; ret (RColor (bg s)))
+  | OWidth => Some (ret (RNum WIDTH))
+  | OHeight => Some (ret (RNum HEIGHT))
+  | OUpdateFrame len => unit_ (update_frame k len)
+  | OUpdatePartial len x y w h => unit_ (update_partial_frame k len x y w h)
+  | ODisplay => unit_ display_frame
+  | OUpdateAndDisplay len => unit_ (update_and_display_frame k len)
+  | OClear => unit_ clear_frame
+  | OSetLut r => unit_ (set_lut r)
+  | OWaitIdle => unit_ wait_until_idle
+  | _ => None
+  end.
 
 Definition drv (ft : feat) : driver :=
-  mkDriver WIDTH HEIGHT true d0 init exec.
+  mkDriver WIDTH HEIGHT true (mkD cBlack 0 false false 0 None) init exec.
 End Epd2in9d.
